@@ -128,9 +128,14 @@ def validAccounts (svc : AuthSvc) (a : ReqAuth) : List Account :=
 def apiNodeOf (urlPath : Path) : Path :=
   "/api/".toList ++ (if "/kapacitor/v1".toList.isPrefixOf urlPath then urlPath.drop 13 else urlPath)
 
+/-- The only requests exempt from authentication: the profiling / expvar pages below
+"/kapacitor/v1/debug/", read with GET, and only when the operator switched `pprof-enabled` on. -/
+def exempt (exposePprof : Bool) (req : Req) : Bool :=
+  exposePprof && req.method == "GET".toList && "/kapacitor/v1/debug/".toList.isPrefixOf req.path
+
 /-- A request that was SERVED (a route handler ran) satisfies the property. -/
-def servedOK (requireAuth : Bool) (svc : AuthSvc) (req : Req) : Bool :=
-  !requireAuth ||
+def servedOK (requireAuth exposePprof : Bool) (svc : AuthSvc) (req : Req) : Bool :=
+  !requireAuth || exempt exposePprof req ||
   match requiredFor req.method with
   | none => false
   | some want => (validAccounts svc req.auth).any (fun acc => mayAllow acc (apiNodeOf req.path) want)
